@@ -311,3 +311,120 @@ def gen_C08(r):
 
 GEN["C07"] = gen_C07
 GEN["C08"] = gen_C08
+
+
+# ---------------------------------------------------------------------------------------------
+# fault enumerations (C06, C12, C16)
+
+import os as _os
+
+
+def _tier():
+    return _os.environ.get("CVERIF_TIER", "quick")
+
+
+def _small_project(r, n=(2, 5), kinds=None, p_par=0.4):
+    pk = _pkgs(r)
+    tasks = S.gen_graph(r, r.randint(*n), kinds or {"exp": 8, "cmd": 2, "group": 1, "combine": 1}, pk, p_par=p_par)
+    return {"epoch": 1_700_000_000 + r.randrange(10**6), "tasks": tasks, "pkgs": pk,
+            "git": {"mode": "none"}, "disable_git": r.random() < 0.5, "history": [],
+            "knobs": {"mon": True, "p_async": r.choice([0.0, 0.0, 1e-3]), "p_burst": 0.0, "bias": "uniform",
+                      "cpu_count": 2}}
+
+
+def gen_C06(r):
+    scn = _small_project(r)
+    ops = []
+    if not scn["disable_git"] and r.random() < 0.6:
+        ops += [{"op": "git", "action": "init"}, {"op": "git", "action": "commit", "name": "c0"}]
+        if r.random() < 0.4:
+            ops.append({"op": "git", "action": "dirty", "value": True})
+    def run_op(**kw):
+        op = _run_op(r, scn["tasks"], jobs_choices=(None, None, 2), again_p=kw.get("again_p", 0.3),
+                     fail_p=r.choice([0.0, 0.2, 0.4]), files=True, out=True, cwds=("",),
+                     stop_early_p=0.1)
+        return op
+    ops.append(run_op(again_p=0.0))
+    cands = [len(ops) - 1]
+    plan = r.choice(["run", "run2", "arch", "arch", "gc"])
+    if plan == "run2":
+        ops.append(run_op(again_p=0.7))
+        cands.append(len(ops) - 1)
+    elif plan == "arch":
+        ops.append(run_op(again_p=0.7))
+        ops.append({"op": "archive", "out": "A0", "flags": {"latest": r.random() < 0.3}, "cwd": ""})
+        cands.append(len(ops) - 1)
+        if r.random() < 0.7:
+            ops.append({"op": "clean", "cwd": ""})
+        if r.random() < 0.4:
+            ops.append(run_op(again_p=0.0))
+        ops.append({"op": "restore", "archive": "A0", "cwd": ""})
+        cands += [len(ops) - 1] * 4
+    elif plan == "gc":
+        ops.append(run_op(again_p=0.5))
+        ops.append({"op": "gc", "flags": {"verbose": r.random() < 0.3}, "cwd": ""})
+        cands += [len(ops) - 1] * 2
+    # an unenumerated random kill somewhere, so that later operations run on what a kill left behind
+    if r.random() < 0.3:
+        j = r.randrange(len(ops))
+        if ops[j]["op"] in ("run", "restore", "archive", "gc"):
+            ops[j] = dict(ops[j], kill=int(10 ** r.uniform(1.5, 3.5)))
+    if r.random() < 0.5:
+        ops.append(run_op(again_p=0.5))
+        cands.append(len(ops) - 1)
+    scn["history"] = ops
+    step = r.choice(cands)
+    if ops[step].get("kill") is not None:
+        ops[step] = {k: v for k, v in ops[step].items() if k != "kill"}
+    scn["enum"] = {"step": step, "budget": 24 if _tier() == "quick" else 400}
+    return scn
+
+
+GEN["C06"] = gen_C06
+
+
+CORRUPTIONS = [None, None, {"kind": "no_index"}, {"kind": "missing_member", "idx": 0}, {"kind": "missing_member", "idx": 1},
+               {"kind": "truncate", "frac": 0.1}, {"kind": "truncate", "frac": 0.5}, {"kind": "truncate", "frac": 0.9},
+               {"kind": "garbage"}, {"kind": "index_not_sqlite"}]
+
+
+def gen_C12(r):
+    scn = _small_project(r, n=(2, 5))
+    ops = []
+
+    def run_op(again_p):
+        return _run_op(r, scn["tasks"], jobs_choices=(None, None, 2), again_p=again_p,
+                       fail_p=r.choice([0.0, 0.0, 0.2]), files=True, out=r.random() < 0.5, cwds=("",))
+
+    ops.append(run_op(0.0))
+    if r.random() < 0.5:
+        ops.append(run_op(0.8))
+    tgt = None
+    if r.random() < 0.25:
+        exps = [t for t, d in scn["tasks"].items() if d["kind"] == "exp"]
+        tgt = r.choice(exps) if exps else None
+    ops.append({"op": "archive", "out": "A0", "target": tgt, "flags": {"latest": r.random() < 0.3}, "cwd": ""})
+    # prior project state for the restore
+    state = r.choice(["clean", "clean", "clean+run", "keep", "clean+plant", "clean+run+plant"])
+    if state.startswith("clean"):
+        ops.append({"op": "clean", "cwd": ""})
+    if "run" in state:
+        op = run_op(0.0)
+        op["gap"] = r.choice([1.0, 50.0, 100000.0])
+        ops.append(op)
+    if "plant" in state:
+        ops.append({"op": "plant", "items": [{"kind": "archive_version_dir", "archive": "A0", "idx": r.randrange(4)}]})
+    corrupt = r.choice(CORRUPTIONS)
+    rop = {"op": "restore", "archive": "A0", "cwd": r.choice(["", ""] + list(scn["pkgs"]))}
+    if corrupt:
+        rop["corrupt"] = corrupt
+    ops.append(rop)
+    step = len(ops) - 1
+    if r.random() < 0.3:
+        ops.append({"op": "restore", "archive": "A0", "cwd": ""})     # second restore: duplicates
+    scn["history"] = ops
+    scn["enum"] = {"step": step, "budget": 20 if _tier() == "quick" else 600}
+    return scn
+
+
+GEN["C12"] = gen_C12
